@@ -54,19 +54,35 @@ def parse_options_comment(text):
     return out
 
 
-def parse_support(lang, text):
+def parse_support(lang, text, ks=None):
+    """ks: the key-set fingerprint symbol the template scanner found (None in a tree without it)"""
     if lang == 'c':
-        return {m.group(1): int(m.group(2)) for m in re.finditer(r'^#define (NUNAVUT_SUPPORT_LANGUAGE_OPTION_\w+) (-?\d+)\s*$', text, re.M)}
+        out = {m.group(1): int(m.group(2)) for m in re.finditer(r'^#define (NUNAVUT_SUPPORT_LANGUAGE_OPTION_\w+) (-?\d+)\s*$', text, re.M)}
+        if ks:
+            for m in re.finditer(r'^#define (%s) (-?\d+)\s*$' % re.escape(ks), text, re.M):
+                out[m.group(1)] = int(m.group(2))
+        return out
     m = re.search(r'^namespace options\s*\{(.*?)^\}', text, re.S | re.M)
     body = m.group(1) if m else ''
-    return {'nunavut::support::options::' + d.group(1): int(d.group(2))
-            for d in re.finditer(r'^constexpr std::uint32_t (\w+) = (-?\d+);', body, re.M)}
+    out = {'nunavut::support::options::' + d.group(1): int(d.group(2))
+           for d in re.finditer(r'^constexpr std::uint32_t (\w+) = (-?\d+);', body, re.M)}
+    if ks:
+        for d in re.finditer(r'^constexpr std::uint32_t (%s) = (-?\d+);' % re.escape(ks.split('::')[-1]), text, re.M):
+            out[ks] = int(d.group(2))
+    return out
 
 
-def parse_asserts(text):
+def sym_rx(ks):
+    alt = r'(?:NUNAVUT_SUPPORT_LANGUAGE_OPTION_|nunavut::support::options::)\w+'
+    if ks:
+        alt = r'(?:%s|%s)' % (re.escape(ks) + r'\b', alt)
+    return alt
+
+
+def parse_asserts(text, ks=None):
     out = []
     for i, l in enumerate(text.splitlines(), 1):
-        m = re.match(r'\s*static_assert\(\s*((?:NUNAVUT_SUPPORT_LANGUAGE_OPTION_|nunavut::support::options::)\w+)\s*==\s*(-?\d+)\s*,', l)
+        m = re.match(r'\s*static_assert\(\s*(' + sym_rx(ks) + r')\s*==\s*(-?\d+)\s*,', l)
         if m:
             out.append([m.group(1), int(m.group(2)), i])
     return out
@@ -105,14 +121,14 @@ def gen_set(job, s):
             res['log'] = 'no support header: %s' % ex
             return s['id'], res
         res['sup_options'] = parse_options_comment(text)
-        res['defs'] = parse_support(s['lang'], text)
+        res['defs'] = parse_support(s['lang'], text, (job.get('keyset') or {}).get(s['lang']))
     for root, _, names in os.walk(os.path.join(d, 'typ')):
         for n in sorted(names):
             if n.endswith(ext):
                 rel = os.path.relpath(os.path.join(root, n), os.path.join(d, 'typ'))
                 text = open(os.path.join(root, n), encoding='utf-8').read()
                 res['typ_options'][rel] = parse_options_comment(text)
-                res['asserts'][rel] = parse_asserts(text)
+                res['asserts'][rel] = parse_asserts(text, (job.get('keyset') or {}).get(s['lang']))
     if not res['asserts']:
         res['ok'] = False
         res['log'] = 'no type headers generated'
@@ -153,7 +169,7 @@ def compile_pair(job, p, sets):
             src = open(path, encoding='utf-8').read().splitlines()[line - 1]
         except Exception:
             src = ''
-        sm = re.search(r'((?:NUNAVUT_SUPPORT_LANGUAGE_OPTION_|nunavut::support::options::)\w+)\s*==', src)
+        sm = re.search(r'(' + sym_rx((job.get('keyset') or {}).get(p['lang'])) + r')\s*==', src)
         rel = os.path.relpath(path, typ_dir) if os.path.abspath(path).startswith(os.path.abspath(typ_dir)) else path
         if 'static assertion failed' in text and sm:
             failed.append([rel, line, sm.group(1)])
